@@ -45,6 +45,7 @@ def frames_for(setname):
         plain(2, 2, 4, 3, 5)
         with_error(2, 2, 1, 3, 3); with_error(2, 2, 2, 3, 4); with_error(2, 2, 3, 3, 4)
         with_error(2, 3, 1, 3, 3); with_error(2, 3, 2, 2, 3)   # a third terminal: sync token distinct from the other two
+        with_error(1, 2, 2, 3, 5)                              # one nonterminal, longer rules: conflicts on a rule that ends in '... term error [N]'
         # seeds: the witnesses of repaired defects (DESIGN section 8)
         seed(4, 4, (1, 1, 2, 2, 3, 1), ()); seed(4, 4, (2, 1, 2, 2, 1), ())
         seed(2, 3, (0, 3, 3, 3, 1), ((2, 1),), 0)          # README error-recovery grammar shape
